@@ -198,6 +198,13 @@ def run(case, rec):
     if w.problems:
         rec.fail("result-not-a-tree", w.problems)
         return
+    # the result is a tree like any other: its count, lookups and clone queries show the nodes that are in it
+    from vlib.invariants import all_invariants
+
+    inv = all_invariants(res)
+    if inv:
+        rec.fail(f"result-tree:invariant:{inv[0][0]}", {"detail": inv[0][1], "ordered": ordered, "reduce": reduce_})
+        return
     # result nodes by label path
     R = {}
     Rkids = {(): [n.data for n in w.kids[id(None)]]}
